@@ -26,6 +26,7 @@ from __future__ import annotations
 
 import gc
 import json
+import time
 import os
 import posixpath
 import re
@@ -123,8 +124,12 @@ class Impl:
     def run_file(self, es):
         self.clean()
         self.make(es).flush()
-        with open(self.path, "rb") as f:
-            data = f.read()
+        gc.collect()
+        try:
+            with open(self.path, "rb") as f:
+                data = f.read()
+        except FileNotFoundError:
+            data = None                       # flush() did not install the file
         back = impl_call(self.read, kinds=None)
         stray = sorted(set(os.listdir(self.dir)) - {"CONTENTS"})
         return data, back, stray
@@ -209,7 +214,7 @@ def gen_mtime(rng):
     if r < 0.7:
         return rng.randrange(0, 1 << 31)
     if r < 0.8:
-        return rng.choice([0, 1, -1, -86400, 1 << 40, 10 ** 18])
+        return rng.choice([0, 1, -1, -86400, 1 << 40, 10 ** 18, (1 << 53) + 1, -(1 << 62) - 1])
     if r < 0.9:
         return rng.randrange(0, 1 << 31) + 0.5      # written as str(int(mtime))
     return -rng.randrange(1, 100000) - 0.25
@@ -477,11 +482,13 @@ def main(chk: Check):
 
 def _run(chk, rng, impl, ok):
     prop_bad = []           # (what, input)
+    tm = {"setup": round(time.time() - chk.t0, 1)}
+    t1 = time.time()
     # ---------------------------------------------------------------- file + edge
     file_cases, file_meta = [], []
     sets = [("corpus", [tup(e) for e in c["entries"]]) for c in corpus(chk) if c.get("stream") == "file"]
-    sets += [("file", gen_set(rng)) for _ in range(chk.n(260, 4000))]
-    sets += [("edge", gen_edge(rng)) for _ in range(chk.n(90, 1200))]
+    sets += [("file", gen_set(rng)) for _ in range(chk.n(220, 4000))]
+    sets += [("edge", gen_edge(rng)) for _ in range(chk.n(70, 1200))]
     for stream, es in sets:
         data, back, stray = impl.run_file(es)
         file_cases.append((c_set(es), Raw(cres([data, back]))))
@@ -509,11 +516,13 @@ def _run(chk, rng, impl, ok):
     for s in file_cases[:: max(1, len(file_cases) // 3)][:3]:
         chk.sample({"stream": "file", "input": s[0][:300], "impl": s[1].term[:300]})
 
+    tm["file"] = round(time.time() - t1, 1)
+    t1 = time.time()
     # ---------------------------------------------------------------- parse
     parse_cases = []
     skipped = 0
     texts = [c["text"] for c in corpus(chk) if c.get("stream") == "parse"]
-    texts += [gen_text(rng, impl) for _ in range(chk.n(300, 4000))]
+    texts += [gen_text(rng, impl) for _ in range(chk.n(240, 4000))]
     for t in texts:
         if not int_modelled(t) or "\x00" in t:
             skipped += 1
@@ -527,10 +536,12 @@ def _run(chk, rng, impl, ok):
     if parse_cases:
         chk.sample({"stream": "parse", "input": parse_cases[0][0][:200], "impl": parse_cases[0][1].term[:200]})
 
+    tm["parse"] = round(time.time() - t1, 1)
+    t1 = time.time()
     # ---------------------------------------------------------------- fault
     fr = FaultRunner(chk, impl)
     fault_cases, fault_meta = [], []
-    nf = chk.n(7, 40)
+    nf = chk.n(6, 40)
     max_pts = chk.n(26, 80)
     specs = [c for c in corpus(chk) if c.get("stream") == "fault"]
     for i in range(nf + len(specs)):
@@ -591,12 +602,14 @@ def _run(chk, rng, impl, ok):
         chk.sample({"stream": "fault", "input": fault_cases[len(fault_cases) // 2][0][:300],
                     "impl": fault_cases[len(fault_cases) // 2][1].term[:200]})
 
+    tm["fault"] = round(time.time() - t1, 1)
+    t1 = time.time()
     # ---------------------------------------------------------------- Coq: model (A) and spec (B)
     spec_bad = []
     corr_bad = []
     if ok:
         r = chk.coq_eval("file", IMPORTS, "list entry", file_cases,
-                         ["mismatches run_file cases", "where_ (fun i r => negb (spec_file_ok i r)) cases"], shard=130)
+                         ["mismatches run_file cases", "where_ (fun i r => negb (spec_file_ok i r)) cases"], shard=400)
         if r is not None:
             corr_bad += [("file", file_cases[i], file_meta[i][1]) for i in r[0]]
             for i in r[1]:
@@ -606,22 +619,24 @@ def _run(chk, rng, impl, ok):
                     if chk.known_finding("sym-location-arrow", {"entries": es}):
                         continue
                 spec_bad.append(("Spec_C24.spec_file_ok rejects the implementation's read-back", {"entries": es}))
-        r = chk.coq_eval("parse", IMPORTS, "bstr", parse_cases, ["mismatches run_parse cases"], shard=170)
+        r = chk.coq_eval("parse", IMPORTS, "bstr", parse_cases, ["mismatches run_parse cases"], shard=400)
         if r is not None:
             corr_bad += [("parse", parse_cases[i], None) for i in r[0]]
         r = chk.coq_eval("fault", IMPORTS, "fault_in", fault_cases,
-                         ["mismatches run_fault cases", "where_ (fun i r => negb (spec_fault_ok i r)) cases"], shard=130)
+                         ["mismatches run_fault cases", "where_ (fun i r => negb (spec_fault_ok i r)) cases"], shard=400)
         if r is not None:
             corr_bad += [("fault", fault_cases[i], fault_meta[i]) for i in r[0]]
             for i in r[1]:
                 spec_bad.append(("Spec_C24.spec_fault_ok rejects the tree found after the fault", fault_meta[i]))
 
+    tm["coq"] = round(time.time() - t1, 1)
+    chk.note("phase seconds: " + json.dumps(tm))
     # ---------------------------------------------------------------- report
-    seen = set()
+    seen = {}
     for what, inp in prop_bad + (spec_bad if not prop_bad else []):
-        if what in seen and len(seen) >= 3:
+        seen[what] = seen.get(what, 0) + 1
+        if seen[what] > 2 or sum(min(v, 2) for v in seen.values()) > 6:
             continue
-        seen.add(what)
         chk.violation("property", {"what": what, "input": inp})
     for name, case, meta in corr_bad[:4]:
         chk.violation("correspondence",
